@@ -488,6 +488,13 @@ def readme_claims(path):
 
 # ------------------------------------------------------------------ the check
 def run(ctx):
+    C.seam_check(ctx["report"], ctx["rundir"], "C13",
+                 texts=["1 kB to b", "1 MB to kB", "180 deg to rad", "3 dozen to dozen", "1 km to m", "1 fm to m", "1 kdegC", "1 Kin to inch", "1 dau to astronomicalunit",
+                        "1 eV to J", "1 Da to kg", "1 μm to m", "1 KiB to B"],
+                 templates=[("%s kB to B", ["1", "2", "3"]), ("%s km to m", ["1", "2"]), ("%s deg to rad", ["90", "180"])],
+                 pairs=[("mean({1 kB, 3 kB}) to B", "2000"), ("(1 MB / 2) to kB", "500"), ("x = 3 dozen; y = x / 2; y to dozen", "3/2"),
+                        ("(1 MB / 2 + 1 kB) to kB", "501"), ("sum({1 kB, 1 B}) to B", "1001"), ("(6 dozen) / (2 dozen)", "(72) / (24) + 0 dozen"),
+                        ("(1 km / 2) to m", "500"), ("(3 kB * 2) to B", "6000"), ("max({1 kB, 1 KiB}) to B", "1024")])
     rep, tier, seed = ctx["report"], ctx["tier"], ctx["seed"]
     rng = random.Random(seed * 104729 + 13)
     d = json.load(open(C.BUILD + "/dump.json"))
